@@ -1,32 +1,46 @@
 // ===== prelude/slices.rs — TRUSTED BASE: L15/L16 slice indexing and copying (std semantics incl. panics) =====
+// `Out` is what `&x[a..b]` yields: `[T]` for vectors / arrays / slices, `str` for `str` / `String`; `cut_ok` is the extra panic
+// condition of the type (for strings: both ends on UTF-8 character boundaries).
 pub trait VfSliceable<T> {
+    type Out: ?Sized;
     spec fn sl_view(&self) -> Seq<T>;
+    spec fn cut_ok(&self, a: int, b: int) -> bool;
 }
-impl<T> VfSliceable<T> for Vec<T> { open spec fn sl_view(&self) -> Seq<T> { self@ } }
-impl<T> VfSliceable<T> for [T] { open spec fn sl_view(&self) -> Seq<T> { self@ } }
-impl<T, const N: usize> VfSliceable<T> for [T; N] { open spec fn sl_view(&self) -> Seq<T> { self@ } }
-impl<T, S: VfSliceable<T> + ?Sized> VfSliceable<T> for &S { open spec fn sl_view(&self) -> Seq<T> { (**self).sl_view() } }
-impl VfSliceable<u8> for String { uninterp spec fn sl_view(&self) -> Seq<u8>; }
-impl VfSliceable<u8> for str { uninterp spec fn sl_view(&self) -> Seq<u8>; }
-// `&x[a..b]`: panics unless a <= b <= len
+impl<T> VfSliceable<T> for Vec<T> { type Out = [T]; open spec fn sl_view(&self) -> Seq<T> { self@ } open spec fn cut_ok(&self, a: int, b: int) -> bool { true } }
+impl<T> VfSliceable<T> for [T] { type Out = [T]; open spec fn sl_view(&self) -> Seq<T> { self@ } open spec fn cut_ok(&self, a: int, b: int) -> bool { true } }
+impl<T, const N: usize> VfSliceable<T> for [T; N] { type Out = [T]; open spec fn sl_view(&self) -> Seq<T> { self@ } open spec fn cut_ok(&self, a: int, b: int) -> bool { true } }
+impl<T, S: VfSliceable<T> + ?Sized> VfSliceable<T> for &S { type Out = S::Out; open spec fn sl_view(&self) -> Seq<T> { (**self).sl_view() } open spec fn cut_ok(&self, a: int, b: int) -> bool { (**self).cut_ok(a, b) } }
+// the element view of what a cut yields
+pub trait VfView<T> { spec fn vw(&self) -> Seq<T>; }
+impl<T> VfView<T> for [T] { open spec fn vw(&self) -> Seq<T> { self@ } }
+impl VfView<u8> for str { open spec fn vw(&self) -> Seq<u8> { self.sl_view() } }
+// byte index i of the text is a UTF-8 character boundary (0 and len always are)
+pub uninterp spec fn spec_char_boundary(bytes: Seq<u8>, i: int) -> bool;
+impl VfSliceable<u8> for String { type Out = str; uninterp spec fn sl_view(&self) -> Seq<u8>; open spec fn cut_ok(&self, a: int, b: int) -> bool { spec_char_boundary(self.sl_view(), a) && spec_char_boundary(self.sl_view(), b) } }
+impl VfSliceable<u8> for str { type Out = str; uninterp spec fn sl_view(&self) -> Seq<u8>; open spec fn cut_ok(&self, a: int, b: int) -> bool { spec_char_boundary(self.sl_view(), a) && spec_char_boundary(self.sl_view(), b) } }
+// `&x[a..b]`: panics unless a <= b <= len (and, for strings, both ends are character boundaries)
 #[verifier::external_body]
-pub fn vf_slice<T, S: VfSliceable<T> + ?Sized>(s: &S, a: usize, b: usize) -> (r: &[T])
-    requires a <= b <= s.sl_view().len()
-    ensures r@ == s.sl_view().subrange(a as int, b as int)
+pub fn vf_slice<T, S: VfSliceable<T> + ?Sized>(s: &S, a: usize, b: usize) -> (r: &S::Out)
+    where S::Out: VfView<T>
+    requires a <= b <= s.sl_view().len(), s.cut_ok(a as int, b as int)
+    ensures r.vw() == s.sl_view().subrange(a as int, b as int)
 { unimplemented!() }
 #[verifier::external_body]
-pub fn vf_slice_from<T, S: VfSliceable<T> + ?Sized>(s: &S, a: usize) -> (r: &[T])
-    requires a <= s.sl_view().len()
-    ensures r@ == s.sl_view().subrange(a as int, s.sl_view().len() as int)
+pub fn vf_slice_from<T, S: VfSliceable<T> + ?Sized>(s: &S, a: usize) -> (r: &S::Out)
+    where S::Out: VfView<T>
+    requires a <= s.sl_view().len(), s.cut_ok(a as int, s.sl_view().len() as int)
+    ensures r.vw() == s.sl_view().subrange(a as int, s.sl_view().len() as int)
 { unimplemented!() }
 #[verifier::external_body]
-pub fn vf_slice_to<T, S: VfSliceable<T> + ?Sized>(s: &S, b: usize) -> (r: &[T])
-    requires b <= s.sl_view().len()
-    ensures r@ == s.sl_view().subrange(0, b as int)
+pub fn vf_slice_to<T, S: VfSliceable<T> + ?Sized>(s: &S, b: usize) -> (r: &S::Out)
+    where S::Out: VfView<T>
+    requires b <= s.sl_view().len(), s.cut_ok(0, b as int)
+    ensures r.vw() == s.sl_view().subrange(0, b as int)
 { unimplemented!() }
 #[verifier::external_body]
-pub fn vf_slice_full<T, S: VfSliceable<T> + ?Sized>(s: &S) -> (r: &[T])
-    ensures r@ == s.sl_view()
+pub fn vf_slice_full<T, S: VfSliceable<T> + ?Sized>(s: &S) -> (r: &S::Out)
+    where S::Out: VfView<T>
+    ensures r.vw() == s.sl_view()
 { unimplemented!() }
 // `dst.copy_from_slice(src)`: panics unless the lengths are equal
 pub trait VfSliceMut<T> {
